@@ -29,7 +29,11 @@ def ensure_installed():
 def _wrap_cache(core):
     """The memory cache is shared mutable state between prefetch workers: its reads and writes are visible
     operations (label ('cache', id)), otherwise the partial-order reduction would treat them as local."""
-    cls = getattr(core, '_CacheWrapper', None)
+    for cname in ('_CacheWrapper', '_DiskCacheWrapper'):
+        _wrap_cache_class(getattr(core, cname, None))
+
+
+def _wrap_cache_class(cls):
     if cls is None:
         return
     for name in ('__getitem__', '__setitem__', '__contains__'):
@@ -86,6 +90,8 @@ class Tap:
     def __call__(self, x):
         s = S.CUR
         pos = x % 100 if isinstance(x, int) else x
+        if self.kind == 'id':
+            return x
         if self.kind == 'pull':
             if s is not None and S.cur_thread() is not None:
                 s.emit('pull', pos)
@@ -143,6 +149,15 @@ class Harness:
                 kw['catch_filter_exception'] = True if c is True else \
                     (exc_type(c[0]) if len(c) == 1 else tuple(exc_type(x) for x in c))
             ds = ds.prefetch(w, b, backend, **kw)
+        elif entry == 'cache_threads':
+            import tempfile
+            self.pristine = [{'x': [i, i], 'y': {'z': i}} for i in range(n)]
+            src = lazy_dataset.new({f'k{i}': ex for i, ex in enumerate(self.pristine)}).map(Tap('id', {}, vis))
+            if cfg.get('kind') == 'diskcache':
+                self.tmp = tempfile.mkdtemp(prefix='verif_c09_e2_', dir='/var/tmp')
+                ds = src.diskcache(cache_dir=self.tmp + '/c')
+            else:
+                ds = src.cache()
         elif entry == 'parmap':
             ds = base.map(Tap('pull', fail_src, vis))
             ds = ds.map(Tap('fn', fail_fn, vis, add=100), num_workers=w, buffer_size=b, backend=backend)
@@ -181,7 +196,51 @@ class Harness:
             return ds.batch(stage[1])
         raise ValueError(stage)
 
+    def main_cache_threads(self):
+        """Several threads fetch the same cold example from one cache and scribble on what they got; afterwards the
+        main thread reads it back through several paths."""
+        import copy as _copy
+        cfg = self.cfg
+        ds = self.ds
+        want = _copy.deepcopy(self.pristine)
+
+        def worker(idx, via_copy):
+            d = ds.copy() if via_copy else ds
+            v = d[idx]
+            v['x'].append('MUT')
+            v['y']['z'] = 'MUT'
+            v['new'] = 1
+
+        threads = [S.FakeThread(target=worker, args=(cfg.get('index', 0), bool(t % 2 and cfg.get('copies'))))
+                   for t in range(cfg['w'])]
+        for t in threads:
+            t.start()
+        for t in threads:
+            t.join()
+        rec = {'consumer': ['reads'], 'delivered': [], 'exc': None}
+        self.rounds.append(rec)
+        try:
+            i = cfg.get('index', 0)
+            reads = [ds[i], ds[i - cfg['n']], ds[f'k{i}'], list(ds)[i], ds.copy()[i]]
+            rec['delivered'] = [r == want[i] for r in reads]
+            rec['values'] = repr(reads)[:300]
+        except S.Abort:
+            raise
+        except BaseException as e:      # noqa: BLE001
+            rec['exc'] = type(e).__name__
+        finally:
+            tmp = getattr(self, 'tmp', None)
+            if tmp:
+                import shutil
+                del ds
+                self.ds = None
+                import gc
+                gc.collect()
+                shutil.rmtree(tmp, ignore_errors=True)
+
     def main(self):
+        if self.cfg['entry'] == 'cache_threads':
+            return self.main_cache_threads()
         s = S.CUR
         cfg = self.cfg
         for rnd, consumer in enumerate(cfg.get('consumers', [['exhaust']])):
